@@ -104,15 +104,21 @@ From RM Require Import C13.ProofsLimits.
 Lemma bytes_eqb_spec a b : bytes_eqb a b = true <-> a = b.
 Proof. split; [apply bytes_eqb_true|intros ->; apply bytes_eqb_refl]. Qed.
 
+Lemma arch_walk_order_independent (t : arch_tables) (iter1 iter2 : list (bytes * option Z) -> list (bytes * option Z)) written callee :
+  Permutation (iter1 (cfi_map bytes_eqb written)) (cfi_map bytes_eqb written) ->
+  Permutation (iter2 (cfi_map bytes_eqb written)) (cfi_map bytes_eqb written) ->
+  arch_walk t iter1 written callee = arch_walk t iter2 written callee.
+Proof.
+  intros P1 P2. unfold arch_walk.
+  exact (walk_cfi_order_independent bytes_eqb bytes_eqb_spec bytes_ltb bytes_ltb_irrefl bytes_ltb_trans bytes_ltb_total
+           (arch_step t) iter1 iter2 written (arch_forwarded t callee) P1 P2).
+Qed.
+
 Lemma a64_walk_order_independent (iter1 iter2 : list (bytes * option Z) -> list (bytes * option Z)) written callee :
   Permutation (iter1 (cfi_map bytes_eqb written)) (cfi_map bytes_eqb written) ->
   Permutation (iter2 (cfi_map bytes_eqb written)) (cfi_map bytes_eqb written) ->
   a64_walk iter1 written callee = a64_walk iter2 written callee.
-Proof.
-  intros P1 P2. unfold a64_walk.
-  exact (walk_cfi_order_independent bytes_eqb bytes_eqb_spec bytes_ltb bytes_ltb_irrefl bytes_ltb_trans bytes_ltb_total
-           a64_step iter1 iter2 written (a64_forwarded callee) P1 P2).
-Qed.
+Proof. exact (arch_walk_order_independent a64_tables iter1 iter2 written callee). Qed.
 
 (* ---- MultiSymbolProvider::stats: what a lookup in the merged map returns does not depend on the iteration order of any
    provider's map: the last provider (in Vec order) that has the key decides *)
